@@ -17,6 +17,7 @@ RULE = ("G-sim traces (1-4 streams, touching kernels, zero-duration kernels, dro
         "Non-trivial: a stream with >= 3 kernels and >= 2 categories with positive idle time. Distinct = hash of files + cfg.")
 ASSUMPTIONS = ["well-formed regime; kernels of one stream do not overlap (G-sim) and have distinct starts", ">= 1 kernel on the rank after trimming",
                "kernel categories as documented: kernel, gpu_memset, gpu_memcpy"]
+FLOAT_KEYS = ["files"]          # fractional-time-unit workload class (hv/shard.py)
 PLAN = {"quick": {"shards": 16, "cases": 800, "timeout": 600}, "thorough": {"shards": 16, "cases": 8000, "timeout": 3000}}
 FLOORS = {"quick": {"distinct_nontrivial": 100, "streams_judged": 700, "gaps_host_wait": 500, "gaps_kernel_wait": 300, "gaps_other": 300,
                     "gap_equals_threshold": 30, "launch_start_equals_prev_end": 20, "unlinked_kernels": 50, "stats_rows_judged": 500},
@@ -157,7 +158,10 @@ def run_case(case: Dict[str, Any], ctx: Any) -> core.CaseResult:
                 got = {c: float(v) for c, v in zip(sub["idle_category"].tolist(), sub["idle_time"].tolist())}
                 if len(got) != len(sub):
                     res.bad("category-row-unique", f"rank {r} stream {s}: duplicate category rows")
-                bad = {c: (got.get(c, 0.0), float(exp.get(c, 0))) for c in set(got) | set(exp) if got.get(c, 0.0) != float(exp.get(c, 0))}
+                # the result frame is rounded to two decimals (result_df.round(2)): exact for whole microseconds, half a unit of
+                # the second decimal for sub-microsecond traces
+                tol = 0.005 + 1e-9 if core.FLOAT_MODE else 0.0
+                bad = {c: (got.get(c, 0.0), float(exp.get(c, 0))) for c in set(got) | set(exp) if abs(got.get(c, 0.0) - float(exp.get(c, 0))) > tol}
                 if bad:
                     res.bad("idle-by-category", f"rank {r} stream {s} threshold {thr}: (reported, expected) {bad}; kernels "
                             f"{[(k.id, k.ts - ld.min_ts, k.end - ld.min_ts, (byid[link[k.id]].ts - ld.min_ts) if link.get(k.id, -1) > 0 and link[k.id] in byid else None) for k in ks][:10]} "
@@ -168,7 +172,7 @@ def run_case(case: Dict[str, Any], ctx: Any) -> core.CaseResult:
                 total = sum(exp.values())
                 if ks:
                     span_busy = (ks[-1].end - ks[0].ts) - sum(k.dur for k in ks)
-                    if abs(sum(got.values()) - span_busy) > 1e-9 and not bad:
+                    if abs(sum(got.values()) - span_busy) > 1e-9 + tol * max(1, len(got)) and not bad:
                         res.bad("idle-total", f"rank {r} stream {s}: categories add up to {sum(got.values())}, span - busy = {span_busy}")
                 if total > 0:
                     ratios = [float(x) for x in sub["idle_time_ratio"].tolist()]
